@@ -143,4 +143,50 @@ theorem evWave_counts_transitions (g : WCfg) (loc : Nat → Int) (o : OpRow) (si
   unfold waveCounts waveSem waveEval
   simp only []
 
+/-- level table from boundaries: `[(b₀, b₁), (b₁, b₂), …]` = `zip(level_starts, level_stops)` -/
+def levelPairs (a : Nat) (bs : List Nat) : List (Nat × Nat) := List.zip (a :: bs) bs
+
+theorem sched_levelPairs (ops : List AOp) (a : Nat) (bs : List Nat) (h : List.Pairwise (· ≤ ·) (a :: bs)) :
+    sched ops (levelPairs a bs) = (List.range' a ((bs.getLast?).getD a - a)).map fun i => ops.getD i default := by
+  induction bs generalizing a with
+  | nil => simp [sched, levelPairs]
+  | cons b r ih =>
+    have hab : a ≤ b := (List.pairwise_cons.1 h).1 b List.mem_cons_self
+    have hr : List.Pairwise (· ≤ ·) (b :: r) := (List.pairwise_cons.1 h).2
+    have hlast : b ≤ (r.getLast?).getD b := by
+      cases hl : r.getLast? with
+      | none => simp
+      | some x => simp only [Option.getD_some]; exact (List.pairwise_cons.1 hr).1 x (List.mem_of_getLast? hl)
+    have ih' := ih b hr
+    unfold sched levelPairs at ih' ⊢
+    simp only [List.zip_cons_cons, List.flatMap_cons]
+    rw [ih']
+    have hl2 : ((b :: r).getLast?).getD a = (r.getLast?).getD b := by
+      cases r with
+      | nil => simp
+      | cons c t =>
+        have : (c :: t).getLast? = some ((c :: t).getLast (by simp)) := List.getLast?_eq_some_getLast (by simp)
+        simp only [List.getLast?_cons_cons, this, Option.getD_some]
+    rw [hl2]
+    have hsplit : List.range' a ((r.getLast?).getD b - a) = List.range' a (b - a) ++ List.range' b ((r.getLast?).getD b - b) := by
+      have : (r.getLast?).getD b - a = (b - a) + ((r.getLast?).getD b - b) := by omega
+      rw [this, ← List.range'_append_1]
+      congr 2
+      omega
+    rw [hsplit, List.map_append]
+    congr 1
+    rw [List.range'_eq_map_range, List.map_map]
+    rfl
+
+/-- **contiguous levels from 0 to the table's length** (what the levelisation produces, C07 `levels_contiguous`): the schedule of a
+    lane is the op table in program order -/
+theorem sched_contiguous (ops : List AOp) (bs : List Nat) (h : List.Pairwise (· ≤ ·) (0 :: bs))
+    (hlast : (bs.getLast?).getD 0 = ops.length) : sched ops (levelPairs 0 bs) = ops := by
+  rw [sched_levelPairs ops 0 bs h, hlast, Nat.sub_zero, ← List.range_eq_range']
+  apply List.ext_getElem
+  · simp
+  · intro i h1 h2
+    simp only [List.getElem_map, List.getElem_range]
+    simp [List.getD, h2]
+
 end KV.WaveIO
